@@ -308,10 +308,14 @@ class Outcome:
 class Flow:
     """Analyse one function.  `sites` lists a Site per statement and per call expression."""
 
-    def __init__(self, func: Func, repo: Repo | None = None, inline_depth: int = 1, closure_env: dict | None = None):
+    def __init__(self, func: Func, repo: Repo | None = None, inline_depth: int = 1, closure_env: dict | None = None,
+                 events: dict[str, Callable[[ast.stmt], bool]] | None = None):
+        """`events`: label -> predicate on simple statements; once a matching statement has executed on
+        every path to a site, the site carries the must-fact `__event__('label')` (must-pass-through)."""
         self.func = func
         self.repo = repo
         self.inline_depth = inline_depth
+        self.events = events or {}
         self.sites: list[Site] = []
         self.alldefs: dict[str, list[ast.expr]] = {}
         self.end_state: State | None = None
@@ -439,7 +443,11 @@ class Flow:
                 if isinstance(n.func.value, ast.Name):
                     add(
                         n.func.value.id,
-                        ast.Call(ast.Name(f"__mut_{n.func.attr}__", ast.Load()), list(n.args), list(n.keywords)),
+                        ast.Call(
+                            ast.Name(f"__mut_{n.func.attr}__", ast.Load()),
+                            [ast.Name(n.func.value.id, ast.Load()), *n.args],
+                            list(n.keywords),
+                        ),
                     )
             elif isinstance(n, ast.Assign | ast.AugAssign) or False:
                 pass
@@ -644,6 +652,11 @@ class Flow:
 
     def _assign_name(self, st: State, name: str, value: ast.expr | None) -> None:
         """name = value (value unexpanded; None = opaque)"""
+        if value is not None and any(
+            isinstance(n, ast.Call) and isinstance(n.func, ast.Attribute) and n.func.attr in MUTATING_METHODS
+            for n in ast.walk(value)
+        ):
+            value = None  # `x = xs.pop()` is not a pure expression: do not propagate it as a definition
         new: list[ast.expr | None] = []
         for a in st.alts:
             if value is None:
@@ -811,7 +824,14 @@ class Flow:
         prev_stmt = self._stmt
         self._stmt = s
         try:
-            return self._stmt_exec_inner(s, st)
+            out = self._stmt_exec_inner(s, st)
+            if self.events and isinstance(s, (ast.Expr, ast.Assign, ast.AugAssign, ast.AnnAssign, ast.Delete)) and out.fall is not None:
+                for label, pred in self.events.items():
+                    if pred(s):
+                        ev = Fact(ast.Call(ast.Name("__event__", ast.Load()), [ast.Constant(label)], []), line=s.lineno)
+                        for a in out.fall.alts:
+                            a.facts[ev.text] = ev
+            return out
         finally:
             self._stmt = prev_stmt
 
